@@ -16,8 +16,8 @@ def _gen(ctx, gopkg):
 
 
 def hdr(mod):
-    return HDR.format(imports="lib.Md5 model.C10_manifest model.C10_ranges model.C10_fs model.C10_gomanifest "
-                              "model.C10_python model.C10_run") + "Import C10_run.%s.\n" % mod
+    return HDR.format(imports="lib.Md5 lib.Bytes63 model.C10_manifest model.C10_ranges model.C10_fs model.C10_gomanifest "
+                              "model.C10_python model.C10_run") + "From Coq Require Import Uint63.\nLocal Open Scope uint63_scope.\nImport C10_run.%s.\n" % mod
 
 
 # extra overlay replacements (used only for mutation experiments: VERIF_C10_REPLACE="rel/path.go=/abs/copy.go,...")
@@ -38,13 +38,13 @@ def run(ctx):
         r1 = dict(rep)
         r1["sdk/go/arvados/zz_verif_c10gen_test.go"] = _gen(ctx, "arvados")
         ctx.stage("fs" + suffix, "sdk/go/arvados", "arvados", ["C10/zz_verif_c10fs_test.go"], "TestVerifC10FS$",
-                  n * mult, hdr("FS"), seed_offset=off, shard=100, replace=r1, env={"VERIF_STAGE": "fs" + suffix})
+                  n * mult, hdr("FS"), seed_offset=off, shard=50, replace=r1, env={"VERIF_STAGE": "fs" + suffix})
         r2 = dict(rep)
         r2["sdk/go/manifest/zz_verif_c10gen_test.go"] = _gen(ctx, "manifest")
         ctx.stage("gm" + suffix, "sdk/go/manifest", "manifest", ["C10/zz_verif_c10gm_test.go"], "TestVerifC10GM$",
-                  n * mult, hdr("GM"), seed_offset=off, shard=400, replace=r2, env={"VERIF_STAGE": "gm" + suffix})
+                  n * mult, hdr("GM"), seed_offset=off, shard=50, replace=r2, env={"VERIF_STAGE": "gm" + suffix})
         ctx.stage("py" + suffix, "sdk/go/manifest", "manifest", ["C10/zz_verif_c10gm_test.go"], "TestVerifC10PY$",
-                  n * mult, hdr("PY"), seed_offset=off, shard=400, replace=r2,
+                  n * mult, hdr("PY"), seed_offset=off, shard=150, replace=r2,
                   env={"VERIF_STAGE": "py" + suffix, "VERIF_C10_PYDRIVER": os.path.join(HARNESS, "py_driver.py"),
                        "VERIF_C10_PYDIR": pyranges})
         if ctx.tier == "thorough" and suffix == "" and ctx.replay is None:
@@ -58,7 +58,7 @@ def run(ctx):
                       env={"VERIF_STAGE": "pyexh", "VERIF_MODE": "exh",
                            "VERIF_C10_PYDRIVER": os.path.join(HARNESS, "py_driver.py"), "VERIF_C10_PYDIR": pyranges})
 
-    return standard(ctx, "C10", ["model/C10_run.vo"], stages, known_bits={4: "F15", 8: "F14"},
+    return standard(ctx, "C10", ["model/C10_run.vo", "lib/Bytes63.vo"], stages, known_bits={4: "F15", 8: "F14"},
                     rule="grammar-directed manifests (1-4 streams, 1-5 blocks of 0-20 bytes with interior empty and repeated blocks, "
                          "file tokens at every block-boundary alignment, repeated tokens/names, names with space, colon, backslash, "
                          "\\ddd and high bytes, directory markers), 30% single-token mutations, 10% arbitrary byte strings; "
